@@ -291,6 +291,9 @@ func evalC08(c *Ctx, cs *Case) {
 	for si := range states {
 		c08State1(c, cs, f, merged, doc, fkey, &states[si], si, "subset")
 	}
+	if cs.Kind != "random-equal-roots" && (!c.Quick() || cs.Seed%2 == 0) {
+		c08Special(c, cs, f, merged, doc, fkey)
+	}
 	// states produced by a real Mkdir of the same tree with each extension list, and of another tree
 	for ei := range ExtLists {
 		if cs.Kind == "random-equal-roots" {
@@ -583,4 +586,103 @@ func c08AfterMkdir(c *Ctx, cs *Case, f, merged model.Forest, doc, fkey string, e
 		}
 	}
 	cs.Entry, cs.Opt, cs.Tags = "", nil, nil
+}
+
+// c08Special: two environment states around the plain ones.
+// (a) the first root is a symbolic link to a directory that holds the root's content (the
+//     directory moved aside, a link in its place): every path exists exactly as before, so the
+//     verdict and the lists must be those of the plain state (metamorphic).
+// (b) a LATER root cannot be examined at all (its name is too long for the OS / it is a link to
+//     itself) while the FIRST root differs: the report must still be the first root's.
+func c08Special(c *Ctx, cs *Case, f, merged model.Forest, doc, fkey string) {
+	r := gen.New(cs.Seed, 808)
+	// ---------------- (a)
+	{
+		for _, strict := range []bool{false, true} {
+			var verdict [2]string
+			var pans [2]any
+			for phase := 0; phase < 2; phase++ {
+				j, err := mon.NewJail(c.TmpDir, true)
+				if err != nil {
+					return
+				}
+				for _, e := range model.FSEntries(merged, nil) {
+					mkdirAll(j.Target + "/" + e.Path)
+				}
+				ps := model.Paths(model.Forest{merged[0]})
+				if len(ps) > 1 && cs.Seed%3 == 0 {
+					removeAll(j.Target + "/" + ps[len(ps)-1])
+				}
+				if cs.Seed%2 == 0 {
+					mkdirAll(j.Target + "/" + merged[0].Name + "/zz_extra/deep")
+				}
+				if phase == 1 {
+					moved := filepath.Join(filepath.Dir(j.Target), "moved-root")
+					if err := os.Rename(filepath.Join(j.Target, merged[0].Name), moved); err != nil {
+						j.Remove()
+						return
+					}
+					os.Symlink("../moved-root", filepath.Join(j.Target, merged[0].Name))
+				}
+				var o Outcome
+				if len(f) == 1 && cs.Seed%2 == 1 {
+					o = verifyCall(verifyRoutes[1], "", f[0], fsOpts(j.Target, nil, false, false, false, strict))
+				} else {
+					o = verifyCall(verifyRoutes[0], doc, nil, fsOpts(j.Target, nil, false, false, false, strict))
+				}
+				pans[phase] = o.Panic
+				verdict[phase] = strings.ReplaceAll(verdictLines(o.Err), j.Target, "T")
+				j.Remove()
+			}
+			cs.Entry = "Verify[first root is a link to its directory]"
+			c.Eval(gen.HashString(fkey+"\x00linkroot"+strconv.FormatBool(strict)), true)
+			c.Count("root_behind_a_link_pairs", 1)
+			det := map[string]any{"forest": fkey, "strict": strict, "plain": verdict[0], "through_link": verdict[1]}
+			if pans[0] != nil || pans[1] != nil {
+				c.Violation(cs, "panic", "link-root", det)
+			} else if verdict[0] != verdict[1] {
+				c.Violation(cs, "verdict.differs-when-root-is-a-link", "", det)
+			}
+			cs.Entry = ""
+		}
+	}
+	// ---------------- (b)
+	if len(merged) >= 1 {
+		for variant := 0; variant < 2; variant++ {
+			lateName := strings.Repeat("L", 256)
+			if variant == 1 {
+				lateName = "zz-self-link"
+			}
+			g := append(model.Forest{}, merged...)
+			g = append(g, &model.Node{Name: lateName, Kids: []*model.Node{{Name: "kid"}}})
+			gdoc := gen.Spell(g, gen.Canonical)
+			for _, strict := range []bool{false, true} {
+				j, err := mon.NewJail(c.TmpDir, true)
+				if err != nil {
+					return
+				}
+				// the first root differs: one of its paths is missing (or it is missing altogether)
+				ps := model.Paths(model.Forest{merged[0]})
+				drop := ps[r.Intn(len(ps))]
+				for _, e := range model.FSEntries(merged, nil) {
+					if e.Path == drop || strings.HasPrefix(e.Path, drop+"/") {
+						continue
+					}
+					mkdirAll(j.Target + "/" + e.Path)
+				}
+				if variant == 1 {
+					os.Symlink(lateName, filepath.Join(j.Target, lateName))
+				}
+				o := verifyCall(verifyRoutes[0], gdoc, nil, fsOpts(j.Target, nil, false, false, false, strict))
+				cs.Entry = "VerifyFromMarkdown[a later root cannot be examined]"
+				cs.Tags = []string{[]string{"name-too-long", "link-to-itself"}[variant]}
+				c.Eval(gen.HashString(fkey+"\x00lateroot"+strconv.Itoa(variant)+strconv.FormatBool(strict)), true)
+				c.Count("unexaminable_later_root_cases", 1)
+				det := map[string]any{"forest": fkey, "later_root": trunc(lateName, 20), "dropped": drop, "strict": strict}
+				c08Judge(c, cs, merged[:1], j.Target, j.Target, strict, o, det)
+				cs.Entry, cs.Tags = "", nil
+				j.Remove()
+			}
+		}
+	}
 }
